@@ -10,7 +10,7 @@ if ! git -C /repo diff --quiet; then echo "/repo working tree is dirty"; exit 2;
 git -C /repo apply "$dir/patch.diff" || { echo "patch does not apply"; exit 2; }
 trap 'git -C /repo checkout -- . ; git -C /repo clean -fdq -- crates >/dev/null 2>&1' EXIT
 for c in "$@"; do
-  out=$(/verif/check "$c" --tier "$tier" 2>&1); rc=$?
+  out=$(${VERIF_CHECK:-/verif/check} "$c" --tier "$tier" 2>&1); rc=$?
   nv=$(echo "$out" | grep -c '^VIOLATION')
   first=$(echo "$out" | grep -A1 '^VIOLATION' | sed -n 2p | cut -c1-260)
   echo "$(date -u +%FT%TZ) seed=$name check=$c tier=$tier exit=$rc violations=$nv :: $first" | tee -a "$dir/results.txt"
